@@ -92,25 +92,17 @@ def L17_ClientRegister : List String := [
   "if conn.ConnID == \"\"",
   "return fmt.Errorf(\"connection ID cannot be empty\")",
   "end",
-  "var evicted *ControlConnection",
-  "r.mu.Lock()",
-  "if r.maxConnections > 0 && len(r.connMap) >= r.maxConnections",
-  "evicted = r.findOldestConnectionLocked()",
-  "if evicted == nil",
-  "current := len(r.connMap)",
-  "r.mu.Unlock()",
-  "return fmt.Errorf(\"connection limit reached: %d/%d\", current, r.maxConnections)",
-  "end",
-  "r.logger.Warnf(\"ClientRegistry: connection limit reached (%d/%d), removing oldest connection %s\", len(r.connMap), r.maxConnections, evicted.ConnID)",
-  "r.unindexLocked(evicted)",
-  "delete(r.connMap, evicted.ConnID)",
-  "end",
-  "r.mu.Unlock()",
-  "if evicted != nil && evicted.Stream != nil",
-  "evicted.Stream.Close()",
-  "end",
   "r.mu.Lock()",
   "defer r.mu.Unlock()",
+  "if r.maxConnections > 0 && len(r.connMap) >= r.maxConnections",
+  "oldestConn := r.findOldestConnectionLocked()",
+  "if oldestConn != nil",
+  "r.logger.Warnf(\"ClientRegistry: connection limit reached (%d/%d), removing oldest connection %s\", len(r.connMap), r.maxConnections, oldestConn.ConnID)",
+  "r.removeConnectionLocked(oldestConn)",
+  "else",
+  "return fmt.Errorf(\"connection limit reached: %d/%d\", len(r.connMap), r.maxConnections)",
+  "end",
+  "end",
   "if existing, exists := r.connMap[conn.ConnID]; exists",
   "r.logger.Warnf(\"ClientRegistry: connection %s already exists, replacing\", conn.ConnID)",
   "r.removeConnectionLocked(existing)",
